@@ -155,6 +155,37 @@ class _Quiet:
         return lambda *a, **k: None
 
 
+def apalache_inductive():
+    """
+    Unbounded-history argument for the repaired refresher: Apalache discharges DynLists!IndInv as an inductive invariant
+    (initiation, consecution from every state satisfying it, and IndInv => C16_NoEmptyWindow / C16_ListExact) over five keys
+    and every subset as a query result.  A supplement to TLC's exhaustive run; skipped (and said so) when apalache-mc is absent.
+    """
+    import shutil
+    import subprocess
+    import tempfile
+
+    exe = shutil.which("apalache-mc")
+    if not exe:
+        return {"ran": False, "why": "apalache-mc not on PATH"}
+    res = {"ran": True}
+    with tempfile.TemporaryDirectory(prefix="apa-") as d:
+        for label, args in (("initiation", ["--init=Init", "--inv=IndInv", "--length=0"]),
+                            ("consecution", ["--init=IndInit", "--inv=IndInv", "--length=1"]),
+                            ("implies_C16_NoEmptyWindow", ["--init=IndInit", "--inv=C16_NoEmptyWindow", "--length=0"]),
+                            ("implies_C16_ListExact", ["--init=IndInit", "--inv=C16_ListExact", "--length=0"])):
+            try:
+                p = subprocess.run([exe, "check"] + args + ["--out-dir=" + d, "MC_DynLists_ind.tla"], cwd=tlc.SPEC_DIR,
+                                   stdout=subprocess.PIPE, stderr=subprocess.STDOUT, text=True, timeout=900)
+                res[label] = "NoError" if "The outcome is: NoError" in p.stdout and p.returncode == 0 else "FAILED rc=%d" % p.returncode
+            except subprocess.TimeoutExpired:
+                res[label] = "timeout"
+    res["ok"] = all(v == "NoError" for k, v in res.items() if k not in ("ran", "ok"))
+    if not res["ok"]:
+        raise tlc.TlcError("Apalache did not discharge DynLists!IndInv: %s" % res)
+    return res
+
+
 def run_into(out, tier, seed):
     rnd = random.Random(seed)
     design = tlc.DesignCheck([("MC_DynLists", "MC_DynLists_repaired.cfg", "DynLists/repaired"),
@@ -197,6 +228,7 @@ def run_into(out, tier, seed):
             out.violation(what, {"formula": b[0], "line": ln}, None)
             break
     design.join(out)
+    out.notes["dynlists_inductive_invariant"] = apalache_inductive()
     out.notes["dynlists_nontrivial"] = nontrivial
     out.notes["dynlists"] = {"refresh_histories": len(traces), "observed_intermediate_reads": sum(1 for tr in traces for ln in tr if ln["a"] == "Read"),
                              "rule": "list events (kind 3 by A with p tags B / B,C / C / none / B,A; a foreign list; another kind) stored in seeded "
